@@ -270,6 +270,19 @@ Example C20_throttle_ex_trailing :
   t_run (t_init 20 true) (C20_thr_ex_tr ++ [TNextStart 2 22; TNextReturn 2 22 true]) = None.
 Proof. vm_compute. auto. Qed.
 
+(* the hypotheses of C20_throttle_keeps_trailing_trigger / _drops_triggers_inside_period on one
+   concrete history: a permission at 1, a trigger at 5 — kept (timer armed for 21) when
+   trailing = true, dropped (nothing owed) when trailing = false *)
+Example C20_throttle_ex_keep_vs_drop :
+  option_map (fun s => (k_owed (t_core s), k_sched (t_core s)))
+    (t_run (t_init 20 true) ([TCall 0; TNextStart 0 1; TNextReturn 0 1 true] ++ [TCall 5]))
+    = Some (true, Some 21) /\
+  existsb t_is_cancel [TCall 0; TNextStart 0 1; TNextReturn 0 1 true] = false /\
+  option_map (fun s => (k_owed (t_core s), k_sched (t_core s)))
+    (t_run (t_init 20 false) ([TCall 0; TNextStart 0 1] ++ TNextReturn 0 1 true :: [TCall 5]))
+    = Some (false, None).
+Proof. vm_compute. auto. Qed.
+
 (* Cancel with one Next pending and one started afterwards: both return false;
    `true` is not a possible result any more, even with a trigger waiting *)
 Definition C20_thr_ex_cancel : list tevent :=
